@@ -24,7 +24,7 @@ PENDING = "check planned (DESIGN 0) but not built yet in this tree; moves to che
 CHECKS = {
  "C16": dict(engine="thrsim", design_ref="DESIGN.md 3",
    technique="deterministic simulation: real threads under a seeded baton scheduler (pre-emption at sys.settrace line events, and inside a line at sys.monitoring instruction events), seeded search over schedules, per-call oracle from the tree's own sequential runs, sequential epilogue calls after every schedule",
-   text="Seeded exploration of thread interleavings at athlib source-line granularity (<=3 forced pre-emptions, 2-3 threads, first-call / warmed-up / cache-at-limit base states) over the public scoring, age-grading and validation calls; every call's outcome must be one it has in some call-atomic sequential order of the same tree. After the threads of a schedule have finished, 2-7 further calls (the same ones, neighbours, fresh ones) are made sequentially and judged by the same oracle, so state a race left half-built or overwritten is seen even when the racing calls themselves were lucky. One schedule in nine pre-empts INSIDE a source line, before its n-th bytecode instruction (a test and its use written on one line). The recorded failing schedules of the repaired defects are re-executed first (regression corpus). Uncommitted changes in athlib/ steer about half of the scenarios to the function families that execute the changed files. Sampling, not proof: quick ~4.9e4 schedules over 1800 scenarios, thorough ~8.6e5 over 24000; evidence reports distinct interleavings reached, where switches landed and which executed lines never saw one.",
+   text="Seeded exploration of thread interleavings at athlib source-line granularity (<=3 forced pre-emptions, 2-3 threads, first-call / warmed-up / cache-at-limit base states) over the public scoring, age-grading and validation calls; every call's outcome must be one it has in some call-atomic sequential order of the same tree. After the threads of a schedule have finished, 2-7 further calls (the same ones, neighbours, fresh ones) are made sequentially and judged by the same oracle, so state a race left half-built or overwritten is seen even when the racing calls themselves were lucky. One schedule in nine pre-empts INSIDE a source line, before its n-th bytecode instruction (a test and its use written on one line). The recorded failing schedules of the repaired defects are re-executed first (regression corpus). Uncommitted changes in athlib/ steer about half of the scenarios to the function families that execute the changed files. Sampling, not proof: quick ~5.2e4 schedules over 1800 scenarios (incl. ~4e3 from depth-one sweeps of every 60th scenario), thorough ~1.0e6 over 24000; evidence reports distinct interleavings reached, where switches landed and which executed lines never saw one.",
    note="Trusts CPython's line tracing and fork() as a fresh process; pre-emption only in athlib frames (not inside jsonschema/stdlib); locks, conditions, events, semaphores and queues reachable from athlib (module globals, instance and __slots__ attributes, closures, default arguments) are replaced by cooperative ones (a wait nobody can end is reported as deadlock); the oracle is the same tree run sequentially, so purely sequential bugs are invisible here."),
  "C02": dict(engine="hjsim", design_ref="DESIGN.md 4.3-4.4",
    technique="deterministic simulation: seeded multi-actor histories (officials, athletes, heckler issuing rule-violating requests) against an executable reference model; refusal atomicity by before/after snapshots",
